@@ -134,6 +134,34 @@ def scatStep (ndim : Nat) (fits : Int → Bool) (n ncols : Nat) (out : Array Int
 
 def dtFits (dt : Option DT) (v : Int) : Bool := match dt with | some d => dtRange d v | none => true
 
+/-! NumPy primitives the regenerated `to_array` (Gen/ToArrayGen.lean) is written in -/
+
+/-- `numpy.full(shape, fill, dtype)` for a one- or two-axis shape, flat and row-major (`OverflowError` when the fill value
+does not fit the dtype) -/
+def npFull (shape : List Nat) (fill : Int) (dt : DT) : M (Array Int) :=
+  if shape.length > 2 then throw (.scope "to_array on a 3-D index") else
+  if !dtRange dt fill then throw (.overflow "fill value") else
+  pure (Array.replicate (shape.headD 0 * (if shape.length > 1 then shape.getD 1 0 else 1)) fill)
+
+/-- `output[rowids, col] = v` (`col = none`: `output[rowids] = v` on a one-axis array): an empty index array assigns and
+converts nothing; otherwise the value must fit the dtype, the column and every row must exist -/
+def npAssignRows (shape : List Nat) (dt : DT) (out : Array Int) (rows : Rows) (col : Option Int) (v : Int) : M (Array Int) :=
+  if rows.isEmpty then pure out else
+  if !dtRange dt v then throw (.overflow "entry value") else
+  let ncols := if shape.length > 1 then shape.getD 1 0 else 1
+  match col with
+  | none => scatRows (shape.headD 0) ncols 0 v rows out
+  | some c =>
+    if c < 0 ∨ c ≥ (ncols : Int) then throw (.indexError "column") else scatRows (shape.headD 0) ncols c.toNat v rows out
+
+/-- Python's `max(xs)` / `min(xs)` on a list (0 on the empty list, where Python raises; the callers pass non-empty lists) -/
+def pyMax : List Int → Int
+  | [] => 0
+  | x :: xs => xs.foldl max x
+def pyMin : List Int → Int
+  | [] => 0
+  | x :: xs => xs.foldl min x
+
 /-- `numpy.full(shape, fill, dtype)` then scatter; `OverflowError` when a Python int does not fit -/
 def scatter (i : IIndex) (fill : Int) (dt : Option DT) (vals : List (Key × Rows × Int)) : M Arr := do
   if i.ndim > 2 then throw (.scope "to_array on a 3-D index")
